@@ -65,7 +65,8 @@ def sources(ctx, tj, quick):
     docs = c06_gen.documents(tj, common.Rng(ctx.seed, 7), quick)
     if quick:
         # every text / attribute document, every third tag document
-        docs = [d for i, d in enumerate(docs) if (d[1] != "tags" and i % 2 == ctx.seed % 2) or i % 5 == ctx.seed % 5 or d[1] == "embedded"]
+        docs = [d for i, d in enumerate(docs) if (d[1] != "tags" and i % 2 == ctx.seed % 2) or i % 5 == ctx.seed % 5 or d[1] == "embedded"
+                or (d[0] in (1301, 1701, 1901) and d[1] == "attrs")]      # typed (opaque) attribute values: every run, all versions
     for lid, kind, x, _ in docs:
         if kind != "boundary":           # 16 k-octet payloads: C06's subject, slow under the leak-checking harness
             out.append((kind, lid, x))
@@ -224,6 +225,63 @@ def run(ctx):
                 if n_ok == 16:
                     groups16 += 1
 
+    # ---- A': every tuple is also decoded WITH THE LIBRARY (wbxml2xml, compact, same keep-ws; the language is forced where
+    #      the document does not identify it): all must decode, to the same pyexpat infoset ------------------------------
+    lL, kL = [], []
+    for (si, o), w in outs.items():
+        if isinstance(w, bytes) and si in langs:
+            L = langs[si]
+            force = L if (o[3] or not [l for l in tj["langs"] if l["id"] == L][0]["pub_text"]) else 0
+            lL.append(cc.w2x_line(w, api="run", lang=force, gen=0, indent=0, keep=o[2], dump=1))
+            kL.append((si, o))
+    aL, crL = common.run_lines(h01, lL)
+    for cr in crL:
+        violations.append({"what": "crash-or-sanitizer-report", **cr})
+    lib = {}
+    xj, xkk = [], []
+    for key, a in zip(kL, aL):
+        d = cc.parse_answer(a)
+        if d is None:
+            continue
+        if d["st"] != 0 or "out" not in d:
+            lib[key] = ("err", d["st"])
+        else:
+            xj.append(bytes.fromhex(d["out"]))
+            xkk.append(key)
+    with ProcessPoolExecutor(common.NPROC) as ex:
+        for key, r in zip(xkk, ex.map(_xinfo, xj, chunksize=64)):
+            lib[key] = r
+    lib_equal = 0
+    for si, (kind, lid, x) in enumerate(srcs):
+        for keep in (0, 1):
+            rs = [(o, lib[(si, o)]) for o in TUPLES if o[2] == keep and (si, o) in lib]
+            if not rs:
+                continue
+            okr = [(o, r) for o, r in rs if r[0] == "ok"]
+            bad = [(o, r) for o, r in rs if r[0] == "err"]
+            if bad and okr:
+                violations.append({"what": "library-decodes-only-some-option-tuples", "source_xml_hex": x.hex(), "lang": langs.get(si), "keep_ws": keep,
+                                   "refused": [(o, r[1]) for o, r in bad][:6], "decoded": [o for o, _ in okr][:6],
+                                   "wbxml_refused": outs[(si, bad[0][0])].hex()})
+                continue
+            if bad:
+                violations.append({"what": "library-refuses-its-own-output", "source_xml_hex": x.hex(), "lang": langs.get(si), "keep_ws": keep,
+                                   "status": bad[0][1][1], "options": bad[0][0], "wbxml": outs[(si, bad[0][0])].hex()})
+                continue
+            if not okr:
+                bump("library output not parsed by pyexpat in every tuple (C05)")
+                continue
+            if len(okr) != len(rs):
+                violations.append({"what": "library-output-well-formed-for-some-tuples-only", "source_xml_hex": x.hex(), "lang": langs.get(si), "keep_ws": keep})
+                continue
+            ref = okr[0]
+            diff = [(o, r) for o, r in okr[1:] if r != ref[1]]
+            if diff:
+                violations.append({"what": "options-change-meaning-library-decoding", "source_xml_hex": x.hex(), "lang": langs.get(si), "keep_ws": keep,
+                                   "options_a": ref[0], "options_b": diff[0][0], "difference": c07_lib.first_diff(ref[1], diff[0][1])})
+            else:
+                lib_equal += 1
+
     # ---- B: XML generation modes ---------------------------------------------------------------------------
     wdocs = []
     seen = set()
@@ -322,7 +380,7 @@ def run(ctx):
         else:
             trans_equal += 1
 
-    evals = len(lA) + len(lW) + len(lB) + len(lC)
+    evals = len(lA) + len(lW) + len(lL) + len(lB) + len(lC)
     ctx.coverage.update({
         "evaluations": evals,
         "distinct_nontrivial": len(nontrivial),
@@ -336,6 +394,7 @@ def run(ctx):
         "traces_validated_against_impl": evals,
         "wbxml_groups_all_tuples_equal": groups_equal,
         "wbxml_groups_with_all_16_tuples": groups16,
+        "library_decoded_groups_all_tuples_equal": lib_equal,
         "xml_documents_all_modes_equal": xml_equal,
         "transcodings_byte_identical": trans_equal,
         "violations_found": len(violations),
